@@ -7,7 +7,8 @@
 //	{"id","mode":"tree","tree":"<prefix tokens>","eval":bool}   C13 structured stream (same encoding as `driver load`)
 //	{"id","mode":"raw","hex":"…"}                               C13 raw-bytes stream (non-evaluating entries only)
 //	{"id","mode":"fields","repo":"/repo"}                       C19: enumerate the plantable fields of definition.go
-//	{"id","mode":"canary","entry":"LoadYAML","path":"steps[].command","variant":"str"}   C19 canary
+//	{"id","mode":"canary","entry":"LoadYAML","path":"steps[].command","variant":"str","shape":"dq-mid"}   C19 canary
+//	{"id","mode":"shapes"}                                      C19: the lexical shapes a canary text is planted in
 //
 // Tree encoding (space separated, prefix order): n | t | f | i<dec> | d<yaml float text> | s<hex utf-8> |
 // l<count> <tree>*count | m<count> (<key tree> <value tree>)*count
@@ -559,6 +560,51 @@ func fieldList(repo string) ([]plant, error) {
 	return out, nil
 }
 
+// canaryShapes: every lexical shape in which a command substitution can sit in a string value — the
+// parameter syntax (bare, name=value, double-quoted, several items) and the generic ones (embedded in
+// text, quoted, indented, `$(…)`), each also carrying a ${VAR} reference. The SAME set is planted in every
+// field, so a guard that depends on the shape of the value is exercised wherever it sits.
+var canaryShapes = []string{"bare", "named-bare", "dq-start", "dq-mid", "dq-end", "dq-only", "named-dq", "named-dq-escaped",
+	"multi", "multi-dq-last", "embedded", "sq", "indented", "dollar-paren", "two-commands"}
+
+func canaryText(shape, file string) string {
+	bt := "`touch " + file + "`"
+	v := " ${VERIF_CANARY_VAR}"
+	switch shape {
+	case "bare":
+		return bt + v
+	case "named-bare":
+		return "CANARY=" + bt + v
+	case "dq-start":
+		return `"` + bt + ` then text` + v + `"`
+	case "dq-mid":
+		return `"made by ` + bt + ` today` + v + `"`
+	case "dq-end":
+		return `"` + strings.TrimSpace(v) + ` made by ` + bt + `"`
+	case "dq-only":
+		return `"` + bt + `"`
+	case "named-dq":
+		return `MSG="made by ` + bt + ` today"` + v
+	case "named-dq-escaped":
+		return `MSG="say \"hi\" ` + bt + `"`
+	case "multi":
+		return `first second K=v ` + bt + ` last` + v
+	case "multi-dq-last":
+		return `one TWO=2 "three words" Q="made by ` + bt + `"`
+	case "embedded":
+		return "pre" + bt + "post" + v
+	case "sq":
+		return "'" + bt + "'" + v
+	case "indented":
+		return "  \t" + bt + "  "
+	case "dollar-paren":
+		return "$(touch " + file + ")" + v
+	case "two-commands":
+		return "`true` and " + bt
+	}
+	return bt + v
+}
+
 // canaryDoc builds a definition with the canary planted at path (as flow YAML through the tree emitter)
 func str(s string) *tree { return &tree{kind: "s", txt: s} }
 func mp(kv ...any) *tree {
@@ -653,14 +699,18 @@ func runCanary(c map[string]any) map[string]any {
 	dir, _ := os.MkdirTemp(tmpDir, "canary")
 	defer os.RemoveAll(dir)
 	canaryFile := filepath.Join(dir, "fired")
-	canary := "`touch " + canaryFile + "` ${VERIF_CANARY_VAR}"
+	shape, _ := c["shape"].(string)
+	if shape == "" {
+		shape = "bare"
+	}
+	canary := canaryText(shape, canaryFile)
 	doc := canaryDoc(path, variant, canary)
 	dagsDir := filepath.Join(dir, "dags")
 	_ = os.MkdirAll(dagsDir, 0o755)
 	file := filepath.Join(dagsDir, "canarydag.yaml")
 	_ = os.Setenv("VERIF_CANARY_VAR", "verif-expanded")
 	before := snapshotEnv()
-	res := map[string]any{"id": c["id"], "entry": entry, "path": path, "variant": variant}
+	res := map[string]any{"id": c["id"], "entry": entry, "path": path, "variant": variant, "shape": shape, "text": canary}
 	outcome := "ok"
 	func() {
 		defer func() {
@@ -744,6 +794,8 @@ func main() {
 				if e != nil {
 					r["error"] = e.Error()
 				}
+			case "shapes":
+				r = map[string]any{"id": c["id"], "shapes": canaryShapes}
 			case "canary":
 				r = runCanary(c)
 			default:
